@@ -1,8 +1,13 @@
 #include <igris/datastruct/stimer.h>
 
+// The arithmetic is done in unsigned long: a tick counter that runs past
+// LONG_MAX wraps around instead of overflowing (undefined for signed long),
+// the elapsed time is the difference read as signed.
 int stimer_check(struct stimer_head *timer, long curtime)
 {
-    return timer->planed && (curtime - timer->start >= timer->interval);
+    return timer->planed &&
+           ((long)((unsigned long)curtime - (unsigned long)timer->start) >=
+            timer->interval);
 }
 
 void stimer_init(struct stimer_head *timer, long start, long interval)
@@ -14,12 +19,13 @@ void stimer_init(struct stimer_head *timer, long start, long interval)
 
 void stimer_swift(struct stimer_head *timer)
 {
-    timer->start += timer->interval;
+    timer->start =
+        (long)((unsigned long)timer->start + (unsigned long)timer->interval);
 }
 
 unsigned long stimer_finish(struct stimer_head *timer)
 {
-    return timer->start + timer->interval;
+    return (unsigned long)timer->start + (unsigned long)timer->interval;
 }
 
 void stimer_plan(struct stimer_head *timer, long start, long interval)
